@@ -76,3 +76,59 @@ func forwardedContextOverlap(run *vk.Run) {
 		}
 	}
 }
+
+// queuedBacklog: five events are published to an Async+Sequential handler whose first invocation
+// is parked; then the handler is unsubscribed (the publishes had returned before: their deliveries are
+// owed) and / or the bus is a persistent one with a persistence timeout configured. Released, the
+// handler receives all five, in publish order.
+func queuedBacklog(run *vk.Run) {
+	for variant := 1; variant < 8; variant++ {
+		unsub, persist, ctxPub := variant&1 != 0, variant&2 != 0, variant&4 != 0
+		var opts []ebu.Option
+		if persist {
+			opts = append(opts, ebu.WithStore(ebu.NewMemoryStore()), ebu.WithPersistenceTimeout(time.Hour))
+		}
+		bus := ebu.New(opts...)
+		var mu sync.Mutex
+		var got []int
+		in0, gate := make(chan struct{}), make(chan struct{})
+		neverStarted := false
+		h := func(e fwEv) {
+			if e.N == 0 {
+				close(in0)
+				<-gate
+			}
+			mu.Lock()
+			got = append(got, e.N)
+			mu.Unlock()
+		}
+		ebu.Subscribe(bus, h, ebu.Async(), ebu.Sequential())
+		for k := 0; k < 5; k++ {
+			if ctxPub {
+				ebu.PublishContext(bus, context.Background(), fwEv{k})
+			} else {
+				ebu.Publish(bus, fwEv{k})
+			}
+			if k == 0 {
+				select {
+				case <-in0:
+				case <-time.After(10 * time.Second):
+					neverStarted = true // (the delivery of the first event never began: reported below)
+				}
+			}
+		}
+		var uerr error
+		if unsub {
+			uerr = ebu.Unsubscribe[fwEv](bus, h)
+		}
+		close(gate)
+		bus.Wait()
+		mu.Lock()
+		g := fmt.Sprint(got)
+		mu.Unlock()
+		run.Case(fmt.Sprintf("backlog behind a parked Async+Sequential invocation|unsub%v|persist%v|ctx%v", unsub, persist, ctxPub), true)
+		if g != "[0 1 2 3 4]" || neverStarted {
+			run.Violation("seq:queued-deliveries-lost", fmt.Sprintf("five events published to an Async+Sequential handler whose first invocation was parked (handler unsubscribed afterwards: %v, returned %v; persistent bus with a one-hour persistence timeout: %v; PublishContext: %v): after the release it received %s, want [0 1 2 3 4]", unsub, uerr, persist, ctxPub, g), nil)
+		}
+	}
+}
